@@ -1,6 +1,7 @@
 package PVM
 
 import (
+	"encoding/binary"
 	"github.com/New-JAMneration/JAM-Protocol/internal/service_account"
 	"github.com/New-JAMneration/JAM-Protocol/internal/types"
 )
@@ -363,18 +364,10 @@ func invoke(input OmegaInput) (output OmegaOutput) {
 	// first read data from memory
 	data := input.VM.Memory.Read(o, offset)
 
-	decoder := types.NewDecoder()
-	// decode gas
-	err := decoder.Decode(data[:8], &g)
-	if err != nil {
-		pvmLogger.Errorf("host-call function \"invoke\" decode gas error : %v", err)
-	}
-	// decode registers
+	// (g, w) = E8^-1 of the first 8 octets followed by 13 x 8 octets (fixed-width little-endian)
+	g = binary.LittleEndian.Uint64(data[:8])
 	for i := uint64(1); i < offset/8; i++ { // start after gas used(8)
-		err = decoder.Decode(data[8*i:8*(i+1)], &w[i-1])
-		if err != nil {
-			pvmLogger.Errorf("host-call function \"invoke\" decode register:%d error : %v", i-1, err)
-		}
+		w[i-1] = binary.LittleEndian.Uint64(data[8*i : 8*(i+1)])
 	}
 	// psi preprocess
 	// the machine runs the program deblobbed by `machine` (code, bitmask, jump table)
@@ -389,13 +382,10 @@ func invoke(input OmegaInput) (output OmegaOutput) {
 	c, pcPrime = tempHost.Interpreter.SingleStepInvoke(input.Addition.IntegratedPVMMap[n].PC)
 
 	// mu* = mu
-	encoder := types.NewEncoder()
 	data = types.ByteSequence(make([]byte, offset))
-	encoded, _ := encoder.Encode(&tempHost.Interpreter.Gas) // encode g'
-	copy(data, encoded)
+	binary.LittleEndian.PutUint64(data[:8], uint64(tempHost.Interpreter.Gas)) // encode g'
 	for i := uint64(1); i < offset/8; i++ {
-		encoded, _ := encoder.Encode(&tempHost.Interpreter.Registers[i-1])
-		copy(data[8*i:8*(i+1)], encoded)
+		binary.LittleEndian.PutUint64(data[8*i:8*(i+1)], tempHost.Interpreter.Registers[i-1])
 	}
 	// write data into memory (mu)
 	input.VM.Memory.Write(o, data)
